@@ -313,6 +313,8 @@ def run(repo, chk):
            f"eval(..., {[norm(a) for a in evs[0].args[1:]] if evs else '?'}), self.globals = {glb_src}, handed over as {passed}")
     from .shared import routing_obligations
     routing_obligations(repo, chk, "R11.3", "record")
+    from .shared import annotation_cache_obligations
+    annotation_cache_obligations(repo, chk, "R11.2")
     from .shared import activation_integrity_obligations
     activation_integrity_obligations(repo, chk, "R11.5", "tag probes")
     # ---------------- R11.5
